@@ -148,27 +148,6 @@ Proof.
     rewrite IH by (try assumption; cbn in L; lia). reflexivity.
 Qed.
 
-Lemma decode32 (c : codec) (mkv : Z -> Z -> sval) :
-  (forall w0 w1 rest, word_ok w0 = true -> word_ok w1 = true -> unpack c (le16 w0 ++ le16 w1 ++ rest) = Ok (mkv w0 w1)) ->
-  forall n ws fuel, forallb word_ok ws = true -> length ws = (2 * n)%nat -> (n <= fuel)%nat ->
-  exists vs, map_res (unpack c) (chunks fuel 4 (words_to_bytes ws)) = Ok vs
-    /\ vs = (fix go (l : list Z) := match l with a :: b :: r => mkv a b :: go r | _ => [] end) ws.
-Proof.
-  intros Hu. induction n as [|n IH]; intros ws fuel H L F.
-  - destruct ws; [|cbn in L; lia]. exists []. destruct fuel; split; reflexivity.
-  - destruct ws as [|w0 [|w1 ws]]; try (cbn in L; lia).
-    destruct fuel as [|fuel]; [lia|].
-    cbn [forallb] in H. apply andb_true_iff in H. destruct H as [H0 H]. apply andb_true_iff in H. destruct H as [H1 H].
-    destruct (IH ws fuel H ltac:(cbn in L; lia) ltac:(lia)) as (vs & E & Evs).
-    exists (mkv w0 w1 :: vs). split.
-    + cbn [words_to_bytes].
-      change (le16 w0 ++ le16 w1 ++ words_to_bytes ws) with (w0 mod 256 :: w0 / 256 :: w1 mod 256 :: w1 / 256 :: words_to_bytes ws).
-      cbn [chunks firstn skipn map_res].
-      change [w0 mod 256; w0 / 256; w1 mod 256; w1 / 256] with (le16 w0 ++ le16 w1 ++ []).
-      rewrite Hu by assumption. cbn [bind]. rewrite E. reflexivity.
-    + rewrite Evs. reflexivity.
-Qed.
-
 Lemma ct_codes : ct_code "PRE" = Ok 1 /\ ct_code "ACC" = Ok 2.
 Proof. split; reflexivity. Qed.
 
@@ -277,12 +256,20 @@ Proof.
   all: try (exists f, i, [w]; split; [reflexivity|]; split; [exact Er|]; split; [eapply region_words_ok; eassumption|];
             exists w; split; reflexivity).
   (* non-T/C word forms *)
+  all: try (assert (Hcnt : 1 <= cnt) by (wfacts Hwf; lia)).
   all: try (exists f, i, ws; split; [reflexivity|];
             replace (2 * cnt / 2) with (1 * cnt) by lia; replace (4 * cnt / 2) with (2 * cnt) by lia;
             replace (2 * 1 / 2) with (1 * 1) by lia;
             split; [exact Er|]; split; [eapply region_words_ok; eassumption|];
             destruct (region_some _ _ _ _ _ _ Er) as (_ & _ & _ & _ & _ & _ & Hl);
-            split; [lia|]; inversion Hr; reflexivity).
+            split; [lia|];
+            match type of Hr with match ?x with _ => _ end = _ => destruct x as [|? [|? ?]] end; inversion Hr; reflexivity).
+  all: try (exists f, i, ws; split; [reflexivity|];
+            replace (2 * 1 / 2) with (1 * 1) by lia;
+            split; [exact Er|]; split; [eapply region_words_ok; eassumption|];
+            destruct (region_some _ _ _ _ _ _ Er) as (_ & _ & _ & _ & _ & _ & Hl);
+            split; [lia|];
+            match type of Hr with match ?x with _ => _ end = _ => destruct x as [|? [|? ?]] end; inversion Hr; reflexivity).
   (* T/C *)
   all: specialize (Hew eq_refl).
   all: try (destruct (region_whole_element _ _ _ _ _ Hok Hew Er) as (j & w0 & w1 & w2 & Hj & Hn & _);
@@ -299,3 +286,455 @@ Proof.
   all: exists w0, w1, w2; (split; [reflexivity|]).
   all: destruct Hs; subst sub; cbn in Hn; subst w; [left|right]; split; reflexivity.
 Qed.
+
+(* ---------------------------------------------------------------- the Tag value built from the fetched words *)
+Lemma list_ind2 {A} (P : list A -> Prop) :
+  P [] -> (forall a, P [a]) -> (forall a b r, P r -> P (a :: b :: r)) -> forall l, P l.
+Proof.
+  intros H0 H1 H2. fix IH 1. intros [|a [|b r]]; [exact H0|apply H1|apply H2; apply IH].
+Qed.
+
+Definition v32 (ft : ftype) (a b : Z) : sval := match ft with FF => VF32 (a + 65536 * b) | _ => VInt (s32 a b) end.
+Fixpoint pairs32 (ft : ftype) (n : nat) (l : list Z) : list sval :=
+  match n with
+  | O => []
+  | S n' => match l with a :: b :: r => v32 ft a b :: pairs32 ft n' r | _ => [] end
+  end.
+
+Lemma values32 ft : is16 ft = false -> forall ws n, length ws = (2 * n)%nat -> values_of ft ws = pairs32 ft n ws.
+Proof.
+  intros H ws. induction ws as [| a | a b r IH] using list_ind2; intros n L.
+  - destruct n; [|cbn in L; lia]. destruct ft; reflexivity.
+  - cbn in L. lia.
+  - destruct n as [|n]; [cbn in L; lia|]. cbn [pairs32]. rewrite <- (IH n) by (cbn in L; lia).
+    destruct ft; try discriminate; reflexivity.
+Qed.
+
+Lemma unpack32 ft w0 w1 rest : is16 ft = false -> word_ok w0 = true -> word_ok w1 = true ->
+  unpack (mcodec ft) (le16 w0 ++ le16 w1 ++ rest) = Ok (v32 ft w0 w1).
+Proof.
+  intros H H0 H1. destruct ft; try discriminate; cbn [mcodec v32]; [apply unpack_f32|apply unpack_s32]; assumption.
+Qed.
+
+Lemma decode32 ft : is16 ft = false -> forall n ws fuel, forallb word_ok ws = true -> length ws = (2 * n)%nat -> (n <= fuel)%nat ->
+  map_res (unpack (mcodec ft)) (chunks fuel 4 (words_to_bytes ws)) = Ok (pairs32 ft n ws).
+Proof.
+  intros Hft. induction n as [|n IH]; intros ws fuel H L F.
+  - destruct ws; [|cbn in L; lia]. destruct fuel; reflexivity.
+  - destruct ws as [|w0 [|w1 ws]]; try (cbn in L; lia).
+    destruct fuel as [|fuel]; [lia|].
+    cbn [forallb] in H. apply andb_true_iff in H. destruct H as [H0 H]. apply andb_true_iff in H. destruct H as [H1 H].
+    cbn [words_to_bytes].
+    change (le16 w0 ++ le16 w1 ++ words_to_bytes ws) with (w0 mod 256 :: w0 / 256 :: w1 mod 256 :: w1 / 256 :: words_to_bytes ws).
+    cbn [chunks firstn skipn map_res].
+    change [w0 mod 256; w0 / 256; w1 mod 256; w1 / 256] with (le16 w0 ++ le16 w1 ++ []).
+    rewrite (unpack32 ft) by assumption. cbn [bind].
+    rewrite IH by (try assumption; cbn in L; lia). reflexivity.
+Qed.
+
+Lemma reply_value a name ws v : wf_addr a = true -> forallb word_ok ws = true -> decoded a ws v ->
+  parse_read_reply (addr_tag a name) (words_to_bytes ws) = Ok v.
+Proof.
+  intros Hwf Hws Hd.
+  destruct (table_facts (a_ft a)) as (T1 & _ & _ & _ & T5 & T6).
+  destruct ct_codes as [C1 C2].
+  unfold parse_read_reply, addr_tag, mk, sub_or_0.
+  cbn [t_file_type t_file_number t_element_number t_pos_number t_sub_element t_address_field t_element_count].
+  rewrite T1, T5, T6, C1, C2. cbn [bind].
+  destruct a as [ft file elem sub bit cnt]. unfold decoded in Hd. cbn [a_ft a_file a_elem a_sub a_bit a_count] in *.
+  assert (Hlenb : length (words_to_bytes ws) = (2 * length ws)%nat) by apply words_to_bytes_length.
+  destruct ft; cbn [is_tc is_io esize mcodec vwords] in *.
+  (* the 16-bit non-T/C files: N B S I O *)
+  1,2,5,6,7: (destruct bit as [b|];
+    [ destruct Hd as (w & Ew & Ev); subst ws v; cbn [forallb] in Hws; apply andb_true_iff in Hws; destruct Hws as [Hw _];
+      assert (Hb : 0 <= b <= 15) by (wfacts Hwf; lia);
+      change (3 =? 3) with true; cbn [andb];
+      change (slice 0 (Z.to_nat 2) (words_to_bytes [w])) with (le16 w ++ []);
+      rewrite unpack_s16 by exact Hw; cbn [bind get_bit];
+      destruct (b <? 0) eqn:E; [lia|]; unfold word_ok in Hw; rewrite testbit_s16 by lia; reflexivity
+    | destruct Hd as [Hl Ev];
+      assert (Hc : 1 <= cnt) by (wfacts Hwf; lia);
+      change (2 =? 3) with false; change (Z.to_nat 2 =? 0)%nat with false; change (Z.to_nat 2) with 2%nat;
+      rewrite decode16 by (try assumption; lia); cbn [bind];
+      rewrite values16 in Ev by reflexivity; subst v;
+      destruct ws as [|x [|y l]]; [cbn [length] in Hl; lia|reflexivity|reflexivity] ]).
+  (* F, L *)
+  1: (destruct bit as [b|]; [wfacts Hwf; discriminate|];
+    destruct Hd as [Hl Ev];
+    assert (Hc : 1 <= cnt) by (wfacts Hwf; lia);
+    change (2 =? 3) with false; change (Z.to_nat 4 =? 0)%nat with false; change (Z.to_nat 4) with 4%nat;
+    change CReal with (mcodec FF);
+    rewrite (decode32 FF eq_refl (Z.to_nat cnt)) by (try assumption; lia); cbn [bind wrap_all];
+    rewrite (values32 FF eq_refl ws (Z.to_nat cnt)) in Ev by lia; subst v;
+    destruct (Z.to_nat cnt) as [|n] eqn:En; [lia|];
+    destruct ws as [|w0 [|w1 r]]; try (cbn [length] in Hl; lia);
+    cbn [pairs32]; destruct (pairs32 _ n r); reflexivity).
+  1: (destruct bit as [b|]; [wfacts Hwf; discriminate|];
+    destruct Hd as [Hl Ev];
+    assert (Hc : 1 <= cnt) by (wfacts Hwf; lia);
+    change (2 =? 3) with false; change (Z.to_nat 4 =? 0)%nat with false; change (Z.to_nat 4) with 4%nat;
+    change (CSInt 4) with (mcodec FL);
+    rewrite (decode32 FL eq_refl (Z.to_nat cnt)) by (try assumption; lia); cbn [bind wrap_all];
+    rewrite (values32 FL eq_refl ws (Z.to_nat cnt)) in Ev by lia; subst v;
+    destruct (Z.to_nat cnt) as [|n] eqn:En; [lia|];
+    destruct ws as [|w0 [|w1 r]]; try (cbn [length] in Hl; lia);
+    cbn [pairs32]; destruct (pairs32 _ n r); reflexivity).
+  (* T, C *)
+  all: destruct Hd as (w0 & w1 & w2 & Ew & Hv); subst ws;
+    cbn [forallb] in Hws; bools;
+    change (3 =? 3) with true; cbn [andb];
+    (destruct bit as [b|];
+     [ assert (Hb : 10 <= b <= 15) by (wfacts Hwf; unfold tc_bit_ok, zin in *; lia); subst v;
+       destruct (b =? 1) eqn:E1; [lia|]; destruct (b =? 2) eqn:E2; [lia|];
+       change (slice 0 (Z.to_nat 6) (words_to_bytes [w0; w1; w2])) with (le16 w0 ++ le16 w1 ++ le16 w2 ++ []);
+       rewrite unpack_s16 by assumption; cbn [bind get_bit];
+       destruct (b <? 0) eqn:E; [lia|];
+       match goal with H : word_ok w0 = true |- _ => unfold word_ok in H end; rewrite testbit_s16 by lia; reflexivity
+     | destruct Hv as [[Es Ev]|[Es Ev]]; subst sub v;
+       [ change (1 =? 1) with true;
+         change (slice 2 (2 + Z.to_nat 6) (words_to_bytes [w0; w1; w2])) with (le16 w1 ++ le16 w2 ++ []);
+         rewrite unpack_s16 by assumption; reflexivity
+       | change (2 =? 1) with false; change (2 =? 2) with true;
+         change (slice 4 (4 + Z.to_nat 6) (words_to_bytes [w0; w1; w2])) with (le16 w2 ++ []);
+         rewrite unpack_s16 by assumption; reflexivity ] ]).
+Qed.
+
+(* ---------------------------------------------------------------- a read, end to end *)
+Definition ok_tag (r : tagres) (v : sval) : Prop := tr_value r = Some v /\ tr_error r = None.
+
+Lemma esize_even ft cnt : (esize ft * cnt) mod 2 = 0.
+Proof. destruct ft; cbn [esize]; lia. Qed.
+
+Lemma reply_layout c pre t0 t1 sts data :
+  cfg_ok c -> length pre = 46%nat ->
+  let rep := [203; 0; 0; 0] ++ pccc_reply (rid_of c) 15 sts [t0; t1] data in
+  nth_error (pre ++ rep) 58 = Some sts /\ skipn 61 (pre ++ rep) = data.
+Proof.
+  intros (v0 & v1 & s0 & s1 & s2 & s3 & Ev & Es) L rep. subst rep. unfold pccc_reply, rid_of. rewrite Ev, Es.
+  split.
+  - rewrite nth_error_app2 by lia. rewrite L. reflexivity.
+  - rewrite skipn_app. rewrite L. rewrite skipn_all2 by lia. reflexivity.
+Qed.
+
+Theorem read_effect c tbl a name v tns pre :
+  cfg_ok c -> table_ok tbl = true -> wf_addr a = true -> a_file a <> 255 -> a_elem a <> 255 ->
+  0 <= tns < 65536 -> length pre = 46%nat -> ref_read tbl a = Some v ->
+  exists req rep, read_request c tns (addr_tag a name) = Ok req
+    /\ exec_mr tbl req = (tbl, rep)
+    /\ ok_tag (read_tag_finish (addr_tag a name) (pre ++ rep)) v.
+Proof.
+  intros Hc Ht Hwf Hf255 He255 Htns Hpre Hr.
+  destruct (wf_bounds a Hwf) as (He & Hf & Hs & Hcnt & Hz).
+  destruct (read_region tbl a v Ht Hwf Hr) as (f & i & ws & Ef & Er & Hok & Hd).
+  destruct (file_for_find _ _ _ Ef) as (Hfind & Hty & Hnum).
+  destruct (table_facts (a_ft a)) as (_ & _ & T3 & T4 & _).
+  eexists. eexists. split; [apply read_request_bytes; assumption|].
+  rewrite exec_mr_head by exact Hc. unfold exec_pccc.
+  rewrite <- (app_nil_r [15; 0; tns mod 256; tns / 256; 162; esize (a_ft a) * a_count a; a_file a; mcode (a_ft a); a_elem a; subreq a]).
+  rewrite parse_cmd_shape by (try assumption; lia).
+  unfold exec_cmd, cmd_region.
+  cbn [pc_rid pc_cmd pc_sts pc_tns pc_fnc pc_size pc_file pc_type pc_elem pc_sub pc_rest].
+  change (negb (15 =? 15)) with false. change (162 =? 162) with true. cbv iota.
+  rewrite Hfind, T3, Hty, esize_even. change (0 =? 0) with true. cbn [andb].
+  change (esize (a_ft a) * a_count a / 2) with (req_words a). rewrite Er.
+  split; [reflexivity|].
+  destruct (reply_layout c pre (tns mod 256) (tns / 256) 0 (words_to_bytes ws) Hc Hpre) as [L1 L2]. cbv zeta in L1, L2.
+  unfold ok_tag, read_tag_finish, request_status. rewrite L1. change (0 =? SUCCESS) with true. cbv iota.
+  change (Z.to_nat SLC_REPLY_START) with 61%nat. rewrite L2.
+  rewrite (reply_value a name ws v Hwf Hok Hd). split; reflexivity.
+Qed.
+
+(* ---------------------------------------------------------------- writes *)
+(* the words a value of the file's type is made of: the spec's words_of, as the model packs them *)
+Lemma pack_words ft v ws : words_of ft v = Some ws -> pack (mcodec ft) v = Ok (words_to_bytes ws).
+Proof.
+  unfold words_of. destruct ft; destruct v; try discriminate;
+    match goal with |- (if ?c then _ else _) = _ -> _ => destruct c eqn:E; [|discriminate] end;
+    intros H; inversion H; subst; cbn [mcodec pack].
+  all: unfold in_srange, in_urange, of_signed;
+    change (pow256 2) with 65536; change (pow256 4) with 4294967296;
+    change (65536 / 2) with 32768; change (4294967296 / 2) with 2147483648;
+    match goal with |- (if ?c then _ else _) = _ => destruct c eqn:?; [|lia] end;
+    cbn [le_enc words_to_bytes le16 app];
+    f_equal; repeat (apply (f_equal2 (@cons Z)); [lia|]); reflexivity.
+Qed.
+
+Lemma pack_words_list ft : forall vs ws, words_of_list ft vs = Some ws ->
+  fold_right (fun x acc => let* a := acc in let* b := pack (mcodec ft) x in Ok (b ++ a)) (Ok []) vs
+  = Ok (words_to_bytes ws).
+Proof.
+  induction vs as [|x vs IH]; intros ws H; cbn [words_of_list] in H.
+  - inversion H; subst. reflexivity.
+  - destruct (words_of ft x) as [a|] eqn:Ea; [|discriminate].
+    destruct (words_of_list ft vs) as [b|] eqn:Eb; [|discriminate]. inversion H; subst.
+    cbn [fold_right]. rewrite (IH b eq_refl). cbn [bind]. rewrite (pack_words _ _ _ Ea). cbn [bind].
+    rewrite words_to_bytes_app. reflexivity.
+Qed.
+
+(* mask and data words of a write, as the reference interpretation has them *)
+Definition wmask (a : addr) : Z := match a_bit a with Some b => 2 ^ b | None => 65535 end.
+Definition wwords (a : addr) (v : sval) : option (list Z) :=
+  match a_bit a with
+  | Some b => Some [if truthy v then 2 ^ b else 0]
+  | None => if a_count a =? 1 then words_of (a_ft a) v
+            else match v with
+                 | VList vs => if Z.of_nat (length vs) =? a_count a then words_of_list (a_ft a) vs else None
+                 | _ => None
+                 end
+  end.
+
+Lemma writeable_value_bytes a name v dws :
+  wf_addr a = true -> is_tc (a_ft a) = false -> wwords a v = Some dws ->
+  writeable_value (addr_tag a name) v = Ok (le16 (wmask a) ++ words_to_bytes dws).
+Proof.
+  intros Hwf Htc Hw.
+  destruct (table_facts (a_ft a)) as (_ & _ & _ & _ & T5 & T6).
+  destruct ct_codes as [C1 C2].
+  destruct (wf_bounds a Hwf) as (_ & _ & _ & Hcnt & _).
+  unfold writeable_value, addr_tag, mk, sub_or_0.
+  cbn [t_file_type t_file_number t_element_number t_pos_number t_sub_element t_address_field t_element_count].
+  rewrite Htc. unfold wmask, wwords in *.
+  destruct (a_count a =? 0) eqn:E0; [lia|].
+  destruct (a_bit a) as [b|] eqn:Eb.
+  - assert (Hb : 0 <= b <= 15 /\ a_count a = 1).
+    { destruct a as [ft file elem sub bit cnt]; cbn [a_ft a_bit a_count] in *; subst bit.
+      destruct ft; try discriminate; wfacts Hwf; lia. }
+    destruct Hb as [Hb Hc1]. rewrite Hc1. inversion Hw; subst dws.
+    replace (if is_io (a_ft a) then Some b else Some b) with (Some b) by (destruct (is_io (a_ft a)); reflexivity).
+    change (3 =? 3) with true. cbv iota. destruct (b <? 0) eqn:E; [lia|].
+    assert (Hp : 0 <= 2 ^ b < 65536).
+    { split; [apply Z.pow_nonneg; lia|]. change 65536 with (2 ^ 16). apply Z.pow_lt_mono_r; lia. }
+    rewrite UINT_ok by exact Hp. cbn [bind]. change (1 <? 1) with false. cbv iota. cbn [bind].
+    rewrite T5, C1, C2, T6, Htc. cbn [bind wrap_all andb fst snd].
+    destruct (truthy v); cbn [words_to_bytes le16 app]; [reflexivity|]. reflexivity.
+  - replace (match (if is_io (a_ft a) then Some 0 else None) with Some z => z | None => 0 end) with 0
+      by (destruct (is_io (a_ft a)); reflexivity).
+    replace (if is_io (a_ft a) then Some 0 else None) with (if is_io (a_ft a) then Some 0 else @None Z) by reflexivity.
+    assert (Haf : (match (if is_io (a_ft a) then Some 0 else None) with Some _ => 2 | None => 2 end) = 2)
+      by (destruct (is_io (a_ft a)); reflexivity).
+    change (2 =? 3) with false. cbv iota. cbn [bind].
+    destruct (a_count a =? 1) eqn:E1.
+    + assert (a_count a = 1) by lia. destruct (1 <? a_count a) eqn:E2; [lia|]. cbn [bind].
+      rewrite T5. cbn [bind]. rewrite (pack_words _ _ _ Hw). reflexivity.
+    + destruct (1 <? a_count a) eqn:E2; [|lia].
+      destruct v as [| | |vs]; try discriminate.
+      destruct (Z.of_nat (length vs) =? a_count a) eqn:El; [|discriminate].
+      destruct (Z.of_nat (length vs) <? a_count a) eqn:El2; [lia|]. cbn [bind].
+      replace (firstn (Z.to_nat (a_count a)) vs) with vs by (symmetry; apply firstn_all2; lia).
+      rewrite T5. cbn [bind]. rewrite (pack_words_list _ _ _ Hw). reflexivity.
+Qed.
+
+Theorem write_request_bytes c tns a name v dws :
+  wf_addr a = true -> is_tc (a_ft a) = false -> 0 <= tns < 65536 -> wwords a v = Some dws ->
+  write_request c tns (addr_tag a name) v =
+    Ok (mr_head ++ rid_of c ++ [15; 0; tns mod 256; tns / 256; 171;
+                                esize (a_ft a) * a_count a; a_file a; mcode (a_ft a); a_elem a; subreq a]
+                ++ le16 (wmask a) ++ words_to_bytes dws).
+Proof.
+  intros Hwf Htc Htns Hw. destruct (wf_bounds a Hwf) as (He & Hf & Hs & Hc & Hz).
+  destruct (table_facts (a_ft a)) as (T1 & T2 & _).
+  pose proof (writeable_value_bytes a name v dws Hwf Htc Hw) as W.
+  unfold write_request. rewrite W. unfold addr_tag, mk, pos_or_0.
+  cbn [t_file_type t_file_number t_element_number t_pos_number t_element_count bind].
+  rewrite T1. cbn [bind]. rewrite UINT_ok by exact Htns. cbn [bind].
+  rewrite USINT_ok by exact Hz. cbn [bind]. rewrite USINT_ok by lia. cbn [bind]. rewrite T2. cbn [bind].
+  rewrite USINT_ok by lia. cbn [bind].
+  replace (match (if is_io (a_ft a) then Some (a_sub a) else None) with Some z => z | None => 0 end) with (subreq a)
+    by (unfold subreq; destruct (is_io (a_ft a)); reflexivity).
+  rewrite USINT_ok by lia. cbn [bind]. rewrite msg_start_eq.
+  unfold SLC_CMD_CODE, SLC_FNC_WRITE. rewrite <- !app_assoc. reflexivity.
+Qed.
+
+Lemma nontc_region a : wf_addr a = true -> is_tc (a_ft a) = false ->
+  subreq a = a_sub a /\ req_words a = match a_bit a with Some _ => 1 | None => vwords (a_ft a) * a_count a end.
+Proof.
+  intros Hwf Htc. destruct a as [ft file elem sub bit cnt]. unfold subreq, req_words. cbn [a_ft a_sub a_bit a_count] in *.
+  destruct ft; try discriminate; destruct bit; cbn [is_io esize vwords]; wfacts Hwf; try discriminate; split; lia.
+Qed.
+
+Definition masked (mask : Z) (old dws : list Z) : list Z :=
+  map (fun od => mask_word mask (fst od) (snd od)) (combine old dws).
+
+Lemma masked_all : forall old dws, forallb word_ok old = true -> forallb word_ok dws = true ->
+  length old = length dws -> masked 65535 old dws = dws.
+Proof.
+  induction old as [|o old IH]; intros dws Ho Hd L; destruct dws as [|d dws]; try (cbn in L; lia); [reflexivity|].
+  cbn [forallb] in *. apply andb_true_iff in Ho. destruct Ho as [Ho1 Ho]. apply andb_true_iff in Hd. destruct Hd as [Hd1 Hd].
+  unfold masked. cbn [combine map fst snd]. unfold word_ok in Ho1, Hd1. rewrite mask_all by lia. f_equal.
+  apply IH; try assumption. cbn in L. lia.
+Qed.
+
+Lemma words_of_list_ok ft : forall vs ws, words_of_list ft vs = Some ws -> forallb word_ok ws = true.
+Proof.
+  induction vs as [|x vs IH]; intros ws H; cbn [words_of_list] in H.
+  - inversion H; subst. reflexivity.
+  - destruct (words_of ft x) as [a|] eqn:Ea; [|discriminate].
+    destruct (words_of_list ft vs) as [b|] eqn:Eb; [|discriminate]. inversion H; subst.
+    rewrite forallb_app. rewrite (words_of_ok _ _ _ Ea), (IH b eq_refl). reflexivity.
+Qed.
+
+(* the reference write, in the terms of the masked write of the target *)
+Lemma ref_write_masked tbl a v tbl' : table_ok tbl = true -> wf_addr a = true -> is_tc (a_ft a) = false ->
+  ref_write tbl a v = Some tbl' ->
+  exists f i old dws, file_for tbl a = Some f /\ region f (a_elem a) (subreq a) (req_words a) = Some (i, old)
+    /\ wwords a v = Some dws /\ length dws = length old /\ forallb word_ok dws = true
+    /\ tbl' = put_file tbl (set_words f (upd_words (df_words f) i (masked (wmask a) old dws))).
+Proof.
+  intros Ht Hwf Htc Hr. destruct (nontc_region a Hwf Htc) as [Es En]. rewrite Es, En.
+  unfold ref_write in Hr. unfold wwords, wmask.
+  destruct (file_for tbl a) as [f|] eqn:Ef; [|discriminate].
+  destruct (file_for_find _ _ _ Ef) as (Hfind & _ & _).
+  pose proof (find_file_ok _ _ _ Ht Hfind) as Hok.
+  destruct (a_bit a) as [b|] eqn:Eb.
+  - destruct (region f (a_elem a) (a_sub a) 1) as [[i ws]|] eqn:Er; [|discriminate].
+    destruct ws as [|w [|? ?]]; try discriminate. inversion Hr; subst tbl'.
+    assert (Hb : 0 <= b <= 15).
+    { destruct a as [ft file elem sub bit cnt]; cbn [a_ft a_bit] in *; subst bit. destruct ft; try discriminate; wfacts Hwf; lia. }
+    exists f, i, [w], [if truthy v then 2 ^ b else 0]. repeat split; try reflexivity; try exact Er.
+    + assert (Hp : 0 <= 2 ^ b < 65536).
+      { split; [apply Z.pow_nonneg; lia|]. change 65536 with (2 ^ 16). apply Z.pow_lt_mono_r; lia. }
+      unfold forallb, word_ok. set (p := 2 ^ b) in *. clearbody p. destruct (truthy v); lia.
+    + unfold masked. cbn [combine map fst snd]. destruct (truthy v); [rewrite mask_set by lia|rewrite mask_clear by lia]; reflexivity.
+  - set (new := if a_count a =? 1 then words_of (a_ft a) v
+                else match v with
+                     | VList vs => if Z.of_nat (length vs) =? a_count a then words_of_list (a_ft a) vs else None
+                     | _ => None
+                     end) in *.
+    destruct new as [dws|] eqn:En'; [|discriminate].
+    destruct (region f (a_elem a) (a_sub a) (vwords (a_ft a) * a_count a)) as [[i old]|] eqn:Er; [|discriminate].
+    inversion Hr; subst tbl'.
+    destruct (region_some _ _ _ _ _ _ Er) as (_ & _ & _ & _ & Hpos & _ & Hl).
+    assert (Hk : length dws = Z.to_nat (vwords (a_ft a) * a_count a) /\ forallb word_ok dws = true).
+    { subst new. destruct (a_count a =? 1) eqn:Ec.
+      - pose proof (words_of_len _ _ _ En'). assert (a_count a = 1) by lia. split; [lia|eapply words_of_ok; eassumption].
+      - destruct v; try discriminate. destruct (Z.of_nat (length vs) =? a_count a) eqn:El; [|discriminate].
+        pose proof (words_of_list_len _ _ _ En'). assert (Z.of_nat (length vs) = a_count a) by lia.
+        split; [nia|eapply words_of_list_ok; eassumption]. }
+    destruct Hk as [Hk Hdok].
+    exists f, i, old, dws. repeat split; try reflexivity; try assumption; [lia|].
+    rewrite masked_all; [reflexivity| |exact Hdok|lia].
+    eapply region_words_ok; eassumption.
+Qed.
+
+Theorem write_effect c tbl a name v tns pre tbl' :
+  cfg_ok c -> table_ok tbl = true -> wf_addr a = true -> is_tc (a_ft a) = false ->
+  a_file a <> 255 -> a_elem a <> 255 -> 0 <= tns < 65536 -> length pre = 46%nat ->
+  ref_write tbl a v = Some tbl' ->
+  exists req rep, write_request c tns (addr_tag a name) v = Ok req
+    /\ exec_mr tbl req = (tbl', rep)
+    /\ ok_tag (write_tag_finish (addr_tag a name) v (pre ++ rep)) v.
+Proof.
+  intros Hc Ht Hwf Htc Hf255 He255 Htns Hpre Hr.
+  destruct (wf_bounds a Hwf) as (He & Hf & Hs & Hcnt & Hz).
+  destruct (ref_write_masked tbl a v tbl' Ht Hwf Htc Hr) as (f & i & old & dws & Ef & Er & Hw & Hl & Hdok & Et).
+  destruct (file_for_find _ _ _ Ef) as (Hfind & Hty & Hnum).
+  destruct (table_facts (a_ft a)) as (_ & _ & T3 & T4 & _).
+  eexists. eexists. split; [apply write_request_bytes; eassumption|].
+  rewrite exec_mr_head by exact Hc. unfold exec_pccc.
+  rewrite parse_cmd_shape by (try assumption; lia).
+  unfold exec_cmd, cmd_region.
+  cbn [pc_rid pc_cmd pc_sts pc_tns pc_fnc pc_size pc_file pc_type pc_elem pc_sub pc_rest].
+  change (negb (15 =? 15)) with false. change (171 =? 162) with false. change (171 =? 171) with true. cbv iota.
+  cbn [le16 app].
+  rewrite Hfind, T3, Hty, esize_even. change (0 =? 0) with true. cbn [andb].
+  change (esize (a_ft a) * a_count a / 2) with (req_words a). rewrite Er.
+  assert (Hlen : Z.of_nat (length (words_to_bytes dws)) = esize (a_ft a) * a_count a).
+  { rewrite words_to_bytes_length, Hl. destruct (region_some _ _ _ _ _ _ Er) as (_ & _ & _ & _ & Hp & _ & Hlo). rewrite Hlo.
+    unfold req_words in *. pose proof (esize_even (a_ft a) (a_count a)). lia. }
+  rewrite Hlen, Z.eqb_refl.
+  assert (Hm : wmask a mod 256 + 256 * (wmask a / 256) = wmask a) by lia. rewrite Hm.
+  rewrite bytes_words by exact Hdok.
+  split; [rewrite Et; reflexivity|].
+  destruct (reply_layout c pre (tns mod 256) (tns / 256) 0 [] Hc Hpre) as [L1 _]. cbv zeta in L1. cbn [app] in L1.
+  unfold ok_tag, write_tag_finish, request_status. rewrite L1. change (0 =? SUCCESS) with true. cbv iota. split; reflexivity.
+Qed.
+
+(* ---------------------------------------------------------------- spelling-level theorems *)
+Definition cmd_names (cmd : pccc_cmd) (c : cfg) (a : addr) (fnc tns : Z) : Prop :=
+  pc_fnc cmd = fnc /\ pc_cmd cmd = 15 /\ pc_file cmd = a_file a /\ ftype_of_code (pc_type cmd) = Some (a_ft a)
+  /\ pc_elem cmd = a_elem a /\ pc_sub cmd = subreq a /\ pc_size cmd = esize (a_ft a) * a_count a
+  /\ pc_rid cmd = rid_of c /\ pc_tns cmd = [tns mod 256; tns / 256].
+
+Lemma target_view_head c body : cfg_ok c -> target_view (mr_head ++ rid_of c ++ body) =
+  match parse_cmd (rid_of c ++ body) with CmdOk x => Some x | _ => None end.
+Proof. intros _. reflexivity. Qed.
+
+Theorem request_names_read c sp a tns :
+  cfg_ok c -> wf_addr a = true -> wf_spelling sp a = true -> a_file a <> 255 -> a_elem a <> 255 -> 0 <= tns < 65536 ->
+  exists t req cmd, read_tag_request c tns (render sp a) = RqOk (t, req)
+    /\ target_view req = Some cmd /\ cmd_names cmd c a 162 tns /\ pc_rest cmd = [].
+Proof.
+  intros Hc Hwf Hsp Hf He Htns.
+  destruct (parse_addr sp a Hwf Hsp) as [name P].
+  destruct (wf_bounds a Hwf) as (_ & _ & Hs & _).
+  destruct (table_facts (a_ft a)) as (_ & _ & T3 & _).
+  unfold read_tag_request, with_tag. rewrite P. rewrite read_request_bytes by assumption.
+  eexists. eexists. eexists. split; [reflexivity|].
+  rewrite target_view_head by exact Hc.
+  rewrite <- (app_nil_r [15; 0; tns mod 256; tns / 256; 162; esize (a_ft a) * a_count a; a_file a; mcode (a_ft a); a_elem a; subreq a]).
+  rewrite parse_cmd_shape by (try assumption; lia).
+  split; [reflexivity|]. unfold cmd_names. cbn [pc_rid pc_cmd pc_tns pc_fnc pc_size pc_file pc_type pc_elem pc_sub pc_rest].
+  repeat split; try reflexivity. exact T3.
+Qed.
+
+Theorem request_names_write c sp a tns v dws :
+  cfg_ok c -> wf_addr a = true -> wf_spelling sp a = true -> is_tc (a_ft a) = false ->
+  a_file a <> 255 -> a_elem a <> 255 -> 0 <= tns < 65536 -> wwords a v = Some dws ->
+  exists t req cmd, write_tag_request c tns (render sp a) v = RqOk (t, req)
+    /\ target_view req = Some cmd /\ cmd_names cmd c a 171 tns
+    /\ pc_rest cmd = le16 (wmask a) ++ words_to_bytes dws.
+Proof.
+  intros Hc Hwf Hsp Htc Hf He Htns Hw.
+  destruct (parse_addr sp a Hwf Hsp) as [name P].
+  destruct (wf_bounds a Hwf) as (_ & _ & Hs & _).
+  destruct (table_facts (a_ft a)) as (_ & _ & T3 & _).
+  unfold write_tag_request, with_tag. rewrite P. rewrite (write_request_bytes c tns a name v dws) by assumption.
+  eexists. eexists. eexists. split; [reflexivity|].
+  rewrite target_view_head by exact Hc.
+  rewrite parse_cmd_shape by (try assumption; lia).
+  split; [reflexivity|]. unfold cmd_names. cbn [pc_rid pc_cmd pc_tns pc_fnc pc_size pc_file pc_type pc_elem pc_sub pc_rest].
+  repeat split; try reflexivity. exact T3.
+Qed.
+
+Theorem read_correct c tbl sp a v tns pre :
+  cfg_ok c -> table_ok tbl = true -> wf_addr a = true -> wf_spelling sp a = true ->
+  a_file a <> 255 -> a_elem a <> 255 -> 0 <= tns < 65536 -> length pre = 46%nat ->
+  ref_read tbl a = Some v ->
+  exists t req rep, read_tag_request c tns (render sp a) = RqOk (t, req)
+    /\ exec_mr tbl req = (tbl, rep) /\ ok_tag (read_tag_finish t (pre ++ rep)) v.
+Proof.
+  intros Hc Ht Hwf Hsp Hf He Htns Hpre Hr.
+  destruct (parse_addr sp a Hwf Hsp) as [name P].
+  destruct (read_effect c tbl a name v tns pre Hc Ht Hwf Hf He Htns Hpre Hr) as (req & rep & R1 & R2 & R3).
+  exists (addr_tag a name), req, rep. unfold read_tag_request, with_tag. rewrite P, R1. auto.
+Qed.
+
+Theorem write_then_read c tbl sp a v tns tns' pre pre' tbl' :
+  cfg_ok c -> table_ok tbl = true -> wf_addr a = true -> wf_spelling sp a = true -> is_tc (a_ft a) = false ->
+  a_file a <> 255 -> a_elem a <> 255 -> 0 <= tns < 65536 -> 0 <= tns' < 65536 ->
+  length pre = 46%nat -> length pre' = 46%nat ->
+  ref_write tbl a v = Some tbl' ->
+  exists t wreq wrep rreq rrep,
+    write_tag_request c tns (render sp a) v = RqOk (t, wreq)
+    /\ exec_mr tbl wreq = (tbl', wrep) /\ ok_tag (write_tag_finish t v (pre ++ wrep)) v
+    /\ read_tag_request c tns' (render sp a) = RqOk (t, rreq)
+    /\ exec_mr tbl' rreq = (tbl', rrep) /\ ok_tag (read_tag_finish t (pre' ++ rrep)) (norm a v).
+Proof.
+  intros Hc Ht Hwf Hsp Htc Hf He Htns Htns' Hpre Hpre' Hw.
+  destruct (parse_addr sp a Hwf Hsp) as [name P].
+  destruct (write_effect c tbl a name v tns pre tbl' Hc Ht Hwf Htc Hf He Htns Hpre Hw) as (wreq & wrep & W1 & W2 & W3).
+  assert (Hbit : match a_bit a with Some b => 0 <= b <= 15 | None => True end).
+  { destruct a as [ft file elem sub bit cnt]. cbn [a_bit a_ft] in *. destruct bit as [b|]; [|exact I].
+    destruct ft; try discriminate; wfacts Hwf; lia. }
+  assert (Ht' : table_ok tbl' = true) by (eapply ref_write_ok; eassumption).
+  assert (Hrr : ref_read tbl' a = Some (norm a v)).
+  { eapply ref_write_read; [eassumption|]. destruct (a_bit a); [lia|exact I]. }
+  destruct (read_effect c tbl' a name (norm a v) tns' pre' Hc Ht' Hwf Hf He Htns' Hpre' Hrr) as (rreq & rrep & R1 & R2 & R3).
+  exists (addr_tag a name), wreq, wrep, rreq, rrep.
+  unfold write_tag_request, read_tag_request, with_tag. rewrite P, W1, R1. auto 10.
+Qed.
+
+Theorem none_is_request_error c tns s v :
+  parse_tag s = PNone ->
+  read_tag_request c tns s = RqErr RequestError /\ write_tag_request c tns s v = RqErr RequestError.
+Proof. intros H. unfold read_tag_request, write_tag_request, with_tag. rewrite H. split; reflexivity. Qed.
